@@ -21,6 +21,7 @@ import Golib.Conf.WriteExtras
 import Golib.Conf.SpacedLines
 import Golib.Conf.ObsHist
 import Golib.Conf.FSDurLemmas
+import Golib.Conf.FSFault
 import Golib.Conf.KeyIff
 import Golib.Conf.LiftLines
 
@@ -214,6 +215,25 @@ theorem finding_same_stamp :
     ⟨1700000000000000000, ['k', '=', '3', '\n']⟩ (by simp) (by decide)
   revert this; decide
 
+/-- an external edit that lands in the middle of a reload (after reload took the stamp and read the
+    file): because the remembered stamp is the one taken *before* the read, the next reload loads it -/
+theorem edit_during_reload_recovered (c : Cfg) (f1 f2 : FileSt) (props : KV)
+    (hv : verFull f1 ≠ verFull f2) (hp : parseProps f2.text = .ok props) :
+    let c1 := reloadRacing false c f1 f2
+    (reload verFull c1 (some f2)).2 = .loaded ∧
+    (reload verFull c1 (some f2)).1.notified = c1.notified + 1 ∧
+    Reflects (reload verFull c1 (some f2)).1 f2.text :=
+  reload_race_recovers c f1 f2 props hv hp
+
+/-- … whereas a stamp taken by a fresh stat after the read belongs to the new content while the map
+    holds the old one: every later reload answers "same" -/
+theorem finding_stamp_after_read :
+    let f1 : FileSt := ⟨1700000000000000000, ['k', '=', '2', '\n']⟩
+    let f2 : FileSt := ⟨1700000005000000000, ['k', '=', '3', '3', '\n']⟩
+    let c1 := reloadRacing true Cfg.init f1 f2
+    (reload verFull c1 (some f2)).2 = .same ∧ lookup (reload verFull c1 (some f2)).1.m ['k'] = some ['2'] ∧
+    lookup (reload verFull (reloadRacing false Cfg.init f1 f2) (some f2)).1.m ['k'] = some ['3', '3'] := by decide
+
 /-- D37: the unchanged code compares whole seconds — the same history leaves the first value -/
 theorem finding_D37 :
     lookup (runH verSec (Cfg.init, none)
@@ -225,21 +245,40 @@ theorem finding_D37 :
 /-- with every store of `apply` under `mu.Lock()` and every read section under `mu.RLock()`
     (the lock facts of Golib.Gen.C18), a reader sees the complete old map or the complete new
     map, for every schedule -/
-theorem no_torn_read (old kvs : KV) (reads : List Str) (sched : List Who)
-    (hdone : (runM true old kvs reads sched).r = .done) :
-    (runM true old kvs reads sched).obs = reads.map (lookup old) ∨
-    (runM true old kvs reads sched).obs = reads.map (lookup (storeAll old kvs)) :=
-  locked_no_torn_read old kvs reads sched hdone
+theorem no_torn_read (old : KV) (ops : List WOp) (reads : List Str) (sched : List Who)
+    (hdone : (runM true old ops reads sched).r = .done) :
+    (runM true old ops reads sched).obs = reads.map (lookup old) ∨
+    (runM true old ops reads sched).obs = reads.map (lookup (storeAll old ops)) :=
+  locked_no_torn_read old ops reads sched hdone
+
+/-- in particular for `apply` (a sequence of stores) and for the reset when the file disappeared
+    (replace the map by an empty one, then store the defaults — one critical section) -/
+example (old kvs : KV) (reads : List Str) (sched : List Who) (h : (runM true old (storesOf kvs) reads sched).r = .done) :=
+  no_torn_read old (storesOf kvs) reads sched h
+example (old : KV) (reads : List Str) (sched : List Who) (h : (runM true old (.clear :: storesOf defaults) reads sched).r = .done) :=
+  no_torn_read old (.clear :: storesOf defaults) reads sched h
 
 /-- D36: without the lock there is a schedule on which one read section sees key a of the old
     version and key b of the new one (the Go runtime usually aborts the process first) -/
 theorem finding_D36 :
     let old : KV := [(['a'], ['1']), (['b'], ['1'])]
-    let kvs : KV := [(['a'], ['2']), (['b'], ['2'])]
+    let kvs : List WOp := storesOf [(['a'], ['2']), (['b'], ['2'])]
     let reads : List Str := [['a'], ['b']]
     let s := runM false old kvs reads [.reader, .reader, .writer, .writer, .writer, .reader, .reader]
     s.r = .done ∧ s.obs = [some ['1'], some ['2']] ∧
     s.obs ≠ reads.map (lookup old) ∧ s.obs ≠ reads.map (lookup (storeAll old kvs)) := by decide
+
+/-- the reset split over two critical sections (empty the map; release; refill): a reader that
+    runs in the gap sees an empty configuration — a key that is `true` in the old map and in the
+    defaults reads as absent.  Each section alone satisfies `no_torn_read`; the pair does not give
+    old-or-new. -/
+theorem finding_reset_gap :
+    let old : KV := [(['e'], ['t'])]
+    let dflt : KV := [(['e'], ['t'])]
+    let reads : List Str := [['e']]
+    let s := runM true old [.clear] reads [.writer, .writer, .writer, .reader, .reader, .reader]
+    s.w = .done ∧ s.r = .done ∧ s.obs = [none] ∧
+    s.obs ≠ reads.map (lookup old) ∧ s.obs ≠ reads.map (lookup (storeAll old (.clear :: storesOf dflt))) := by decide
 
 /-! ## write-back -/
 
@@ -452,6 +491,24 @@ theorem finding_D39_trunc_durable (old new : Str) :
     ∃ s ∈ dstates new truncSeq (DFS.init old), ([] : Str) ∈ outcomes s := truncSeq_can_lose old new
 
 example : ((dstates ['b'] atomicSeq (DFS.init ['a'])).flatMap outcomes).eraseDups = [['a'], ['b']] := by decide
+
+/-- **Write faults**: CreateTemp, WriteString (after any number of characters), Sync, Close or
+    Rename may fail in any combination: afterwards the configuration file holds the complete new
+    content and Write returned nil, or the complete old content and Write returned the error; no
+    temporary file stays behind -/
+theorem write_faults_safe (ft : Faults) (old new : Str) :
+    let r := storeProtocol true ft old new
+    ((r.1.target = some new ∧ r.2 = false) ∨ (r.1.target = some old ∧ r.2 = true)) ∧ r.1.temp = none :=
+  storeProtocol_checked ft old new
+
+/-- … which needs the error of WriteString/Sync to reach the test that guards the rename: with
+    that error lost, a write failing after n characters installs those n characters and reports
+    success -/
+theorem finding_write_error_lost (old new : Str) (n : Nat) :
+    storeProtocol false ⟨false, some n, false, false, false⟩ old new = (⟨some (new.take n), none⟩, false) :=
+  storeProtocol_unchecked old new n
+
+example : (storeProtocol true ⟨false, some 2, false, false, false⟩ ['o', 'l', 'd'] ['n', 'e', 'w']) = (⟨some ['o', 'l', 'd'], none⟩, true) := by decide
 
 /-- D39 (first half): open with O_TRUNC, then write — there is a stop point at which the file
     is empty, and one for every proper prefix of the new content -/
